@@ -19,7 +19,7 @@ theorem fold_names_legal_distinct {E : Env} {cfg : Cfg} {o : EnumObj} (hp : Pref
     (fun r => isIdentifier r = true ∧ isKeyword r = false ∧
       (∀ x ∈ Dcg.Gen.EnumSites.resolverExcludes, r ≠ x) ∧ r.head? ≠ some '_')
     (fun src excl r hr => by
-      have hl := Dcg.Props.C07.result_legal E .enum cfg src excl false false hp hE r hr
+      have hl := Dcg.Props.C07.result_legal E .enum cfg src excl false false (prefixStart_of_prefixOK hp) hE r hr
       exact ⟨hl.1, hl.2.1, hl.2.2.2 rfl,
         Dcg.Props.C07.result_no_leading_underscore E .enum cfg src excl false hp hE r hr⟩)
     vs i init ms h
@@ -33,7 +33,7 @@ theorem fold_names_legal_distinct {E : Env} {cfg : Cfg} {o : EnumObj} (hp : Pref
   · intro heq; exact h3 m hm (heq ▸ hmro)
 
 /-- the member loop never runs out of fuel, whatever the initial excludes -/
-theorem fold_terminates {E : Env} {cfg : Cfg} {o : EnumObj} (hp : PrefixOK cfg) (hE : CaseOK E) :
+theorem fold_terminates {E : Env} {cfg : Cfg} {o : EnumObj} (hp : PrefixStart cfg) (hE : CaseOK E) :
     ∀ (vs : List JVal) (i : Nat) (excl : List (List Char)), foldMembers E cfg o vs i excl ≠ .outOfFuel := by
   intro vs
   induction vs with
